@@ -104,18 +104,25 @@ func partialValueAccessorsGuarded(r *fw.Run, rule string, pkgs []string, minSite
 // value otherwise. The documents checked here are schema documents and configuration, which are not validated before
 // use. Every call `doc.<K>Value…(v.Ref)` / index `doc.<K>Values[v.Ref]` is dominated by a test that v.Kind is K.
 func kindRefAgreement(r *fw.Run, rule string, pkgs []string, frozen map[string]string) int {
-	p := r.Prog
-	kinds := map[string]string{ // accessor / slice name prefix → kind constant
+	return kindRefAgreementFor(r, rule, "Value", map[string]string{ // accessor / slice name prefix → kind constant
 		"StringValue": "ValueKindString", "IntValue": "ValueKindInteger", "FloatValue": "ValueKindFloat", "BooleanValue": "ValueKindBoolean",
 		"EnumValue": "ValueKindEnum", "ListValue": "ValueKindList", "ObjectValue": "ValueKindObject", "VariableValue": "ValueKindVariable",
-	}
+	}, pkgs, frozen)
+}
+
+// (The same rule over ast.Node (Kind, Ref) pairs was tried in round 3 and not armed: 18 of 162 sites failed, all of them
+// on idioms the rule does not model — a local `kind := node.Kind`, the else-branch of a two-way kind test, walker
+// invariants such as Ancestors[0] being the operation — see DESIGN §8.)
+func kindRefAgreementFor(r *fw.Run, rule, typeName string, kinds map[string]string, pkgs []string, frozen map[string]string) int {
+	p := r.Prog
 	kindOfName := func(name string) string {
+		best, bestLen := "", 0
 		for pre, k := range kinds {
-			if len(name) >= len(pre) && name[:len(pre)] == pre {
-				return k
+			if len(name) >= len(pre) && name[:len(pre)] == pre && len(pre) > bestLen {
+				best, bestLen = k, len(pre)
 			}
 		}
-		return ""
+		return best
 	}
 	n := 0
 	// entry facts of parameters of type ast.Value: kind K holds at entry when every call site seen in the analysed
@@ -135,7 +142,7 @@ func kindRefAgreement(r *fw.Run, rule string, pkgs []string, frozen map[string]s
 					if !ok || sel.Sel.Name != "Ref" {
 						return nil
 					}
-					if tv, okT := info.Types[sel.X]; !okT || !fw.TypeIs(tv.Type, "ast", "Value") {
+					if tv, okT := info.Types[sel.X]; !okT || !fw.TypeIs(tv.Type, "ast", typeName) {
 						return nil
 					}
 					// struct invariant: VariableDefinition.VariableValue is a variable value by construction (the parser and
@@ -150,7 +157,7 @@ func kindRefAgreement(r *fw.Run, rule string, pkgs []string, frozen map[string]s
 					if !ok || sel.Sel.Name != "Kind" {
 						return nil
 					}
-					if tv, okT := info.Types[sel.X]; !okT || !fw.TypeIs(tv.Type, "ast", "Value") {
+					if tv, okT := info.Types[sel.X]; !okT || !fw.TypeIs(tv.Type, "ast", typeName) {
 						return nil
 					}
 					return fw.RootObj(info, sel.X)
@@ -241,7 +248,7 @@ func kindRefAgreement(r *fw.Run, rule string, pkgs []string, frozen map[string]s
 							if fn := fw.Callee(info, c); fn != nil && p.FuncOf(fn) != nil {
 								sg := fn.Type().(*types.Signature)
 								for i, a := range c.Args {
-									if i >= sg.Params().Len() || !fw.TypeIs(sg.Params().At(i).Type(), "ast", "Value") {
+									if i >= sg.Params().Len() || !fw.TypeIs(sg.Params().At(i).Type(), "ast", typeName) {
 										continue
 									}
 									po := sg.Params().At(i)
